@@ -51,10 +51,13 @@ claim('C05',
       'numbered by first member, with consistent multiplicity / first / next lists. (2) spheregroup as a whole (cross-chunk merge with '
       'path compression, renumbering, list rebuild) is executed with the chunk assignment replaced by an ARBITRARY symbolic '
       'point-in-chunk relation subject to the margin invariant (every point in some chunk, every linked pair shares a chunk), so all '
-      'multi-chunk overlap patterns of <= 3 (4) points in <= 2 (3) chunks are covered. The chunk geometry that is supposed to establish '
-      'that invariant is not claimed.',
-      'gcirc -> symbolic distance matrix; chunks.__init__/assign -> symbolic membership under the stated invariant (assumed, not shown); '
-      'numpy.deg2rad -> identity. A defect confined to the chunk geometry is not detected.', 'DESIGN.md 4/C05')
+      'multi-chunk overlap patterns of <= 3 (4) points in <= 2 (3) chunks are covered, plus chains over 5-7 chunks with a symbolic chunk '
+      'visiting order. (3) The margin invariant itself is shown on the real chunks class (__init__, rarange, assign, getbounds) for 3 '
+      'points with symbolic right ascensions near the RA seam, in the box metric (Dec and RA cos Dec within the linking length); the '
+      'trigonometric step from separation to that box is not claimed.',
+      'gcirc -> symbolic distance matrix; in (2) chunks.__init__/assign -> symbolic membership under the stated invariant; '
+      'numpy.deg2rad -> identity; in (3) declinations are concrete (1 configuration quick, 3 thorough) and cos of the declination bounds is '
+      'evaluated in IEEE double.', 'DESIGN.md 4/C05 and 9.4')
 claim('C08',
       'bspline.__init__, intrv, bsplvn, action and value are executed symbolically: the abscissa, the coefficient vector and (orders <= 4) '
       'the breakpoints themselves are solver variables. Within the bounds the solver shows for EVERY abscissa / knot vector / coefficient '
@@ -133,7 +136,7 @@ claim('C12',
       'scalings, sin/cos opaque values with s^2+c^2=1 (reference uses the same conversion); |x.p| <= 1 supplied as a lemma. NOT covered: the '
       'three storage formats (Mangle text / FITS table / window_read assembly: astropy I/O). IEEE rounding of the dot product fed to arccos '
       '(a cap\'s own centre; NaN) is covered by two binary64 (QF_FP) obligations in which numpy.dot returns an arbitrary double within 2^-50 '
-      'of [-1, 1] and arccos is a function symbol with stated libm facts (validated against this machine\'s numpy on every run). Bounds: <= 2 caps x 1-2 points (3 caps thorough), <= 3 polygons, index lists over 3 caps up to '
+      'of [-1, 1] and arccos is a function symbol with stated libm facts (validated against this machine\'s numpy on every run). Bounds: <= 2 caps x 1-2 points, <= 3 polygons, index lists over 3 caps up to '
       'length 2 (3 thorough).', 'DESIGN.md 4/C12')
 claim('C16',
       'readspec (with spec_append, latest_mjd, number_of_fibers, spec_path) runs against a synthetic survey in which every pixel of every HDU '
